@@ -596,6 +596,7 @@ func main() {
 		}
 		return n
 	}())
+	rep.Count("famG_steps_where_the_used_destination_rejected_what_a_fresh_one_accepts(counted only)", reuseStricter)
 	rep.Count("famI_nesting_cases", nestingCases)
 	rep.Count("famJ_overflow_probes", overflowCases)
 	rep.Extra("overflow_probes", "declared counts 2^28, 2^28+3 (8-byte elements), 2^29 (4-byte), 2^30, 2^31-1 (bytes) on the length-prefixed leaves, prefix + 3 bytes, one at a time")
